@@ -19,10 +19,14 @@ try:
     open(rec, "w").write('#!/bin/sh\nfor a in "$@"; do printf \'%s\\0\' "$a"; done > "$VX_OUT.tmp"; mv "$VX_OUT.tmp" "$VX_OUT"\n')
     os.chmod(rec, os.stat(rec).st_mode | stat.S_IXUSR)
     home = os.path.join(d, "home"); os.makedirs(home); watch = os.path.join(d, "w"); os.makedirs(watch)
-    def run(flags, command):
+    rec2 = os.path.join(d, "rec2")          # the same recorder under another name, used as $SHELL: it marks what it records
+    open(rec2, "w").write('#!/bin/sh\n{ printf \'%s\\0\' "<<invoked as $SHELL>>"; for a in "$@"; do printf \'%s\\0\' "$a"; done; } > "$VX_OUT.tmp"; mv "$VX_OUT.tmp" "$VX_OUT"\n')
+    os.chmod(rec2, os.stat(rec2).st_mode | stat.S_IXUSR)
+    def run(flags, command, shell_env=None):
         if os.path.exists(out): os.remove(out)
         e2 = dict(os.environ, HOME=home, XDG_CONFIG_HOME=os.path.join(home, ".config"), VX_OUT=out)
         e2.pop("SHELL", None)
+        if shell_env: e2["SHELL"] = shell_env
         p = subprocess.Popen([BIN, "-w", watch, "--project-origin", watch] + flags + ["--"] + command, cwd=d, env=e2, stdout=subprocess.DEVNULL, stderr=subprocess.DEVNULL)
         t = time.time() + 20
         while time.time() < t and not os.path.exists(out): time.sleep(0.05)
@@ -39,6 +43,14 @@ try:
             if got is None: print("harness: the command never ran (%s %r)" % (flags, l)); sys.exit(2)
             if got != l: bad.append("%s -- rec %r: the child received %r" % (" ".join(flags), l, got)); break
         if bad: break
+    # 1b. an explicit --shell (none, or a program) is not overridden by $SHELL
+    if not bad:
+        got = run(["--shell=none"], [rec] + awkward, shell_env=rec2)
+        if got is None: print("harness: the command never ran (--shell=none with $SHELL set)"); sys.exit(2)
+        if got != awkward: bad.append("--shell=none with $SHELL set -- rec %r: the child received %r" % (awkward, got))
+        got = run(["--shell=%s -x" % rec], ["echo", "a b"], shell_env=rec2)
+        if got is None: print("harness: the shell never ran (--shell with $SHELL set)"); sys.exit(2)
+        if got != ["-x", "-c", "echo a b"]: bad.append("--shell=<rec> -x with $SHELL set: the shell was invoked with %r, expected ['-x', '-c', 'echo a b']" % (got,))
     # 2. with a shell: <shell> <options..> -c "<command words joined by one space>"
     if not bad:
         for shellflag, want_opts in (("--shell=%s" % rec, []), ("--shell=%s -x  -y" % rec, ["-x", "-y"])):
